@@ -316,18 +316,48 @@ func (m *Map) Range(f func(k, v any) bool) {
 }
 func (m *Map) Clear() { m.step("mapclear"); m.keys, m.vals = nil, nil }
 
-// Pool never re-uses an object: re-use is an optimisation the program must not depend on.
+// Pool re-uses objects eagerly and deterministically (last in, first out): the most
+// adversarial behaviour a sync.Pool may show, so that state left in a pooled object is
+// handed to the next user.
 type Pool struct {
-	New func() any
+	New   func() any
+	id    uint64
+	items []any
+}
+
+func (p *Pool) step(kind string) {
+	if vrt.Active() {
+		if p.id == 0 {
+			p.id = vrt.NewObj()
+			// a package-level pool must not carry objects (or its identity) into the next execution
+			vrt.OnCleanup(func() { p.id, p.items = 0, nil })
+		}
+		vrt.Yield(vrt.Op{Kind: kind, Obj: p.id})
+		vrt.RaceAcquire(p.id)
+		vrt.RaceReleaseMerge(p.id)
+	}
 }
 
 func (p *Pool) Get() any {
+	p.step("poolget")
+	if n := len(p.items); n > 0 {
+		x := p.items[n-1]
+		p.items = p.items[:n-1]
+		return x
+	}
 	if p.New != nil {
 		return p.New()
 	}
 	return nil
 }
-func (p *Pool) Put(any) {}
+
+func (p *Pool) Put(x any) {
+	if x == nil {
+		return
+	}
+	p.step("poolput")
+	p.items = append(p.items, x)
+}
 
 // OnceFunc / OnceValue as in package sync.
 func OnceFunc(f func()) func() {
